@@ -1,5 +1,6 @@
 //@ unit: schema_helper
 //@ inject-into: serde_avro_fast/src/schema/self_referential.rs
+//@ crate-attr: feature(const_heap)
 //@ anchor: serde_avro_fast/src/schema/self_referential.rs :: pub struct Schema \{
 //@ anchor: serde_avro_fast/src/schema/self_referential.rs :: pub\(crate\) fn root<'a>\(&'a self\) -> NodeRef<'a>
 
@@ -42,3 +43,31 @@ pub(crate) const fn decimal_fixed_node(size: usize, scale: u32) -> SchemaNode<'s
 		repr: DecimalRepr::Fixed(Fixed { size, name: anon_name() }),
 	})
 }
+
+/// Fixed hasher keys instead of the thread-local/OS-seeded ones (getrandom is a foreign call).
+/// Only ever used to *construct* empty maps in harnesses: nothing is hashed (A2).
+pub(crate) fn stub_random_state_new() -> std::hash::RandomState {
+	// SAFETY (harness only): RandomState is two u64 keys.
+	unsafe { std::mem::transmute::<(u64, u64), std::hash::RandomState>((0, 0)) }
+}
+
+// ---- fully static composite nodes (need `#![cfg_attr(kani, feature(const_heap))]`, prepended to
+// lib.rs by the engine).  A Vec/String header aliases a static array and is never dropped or grown
+// (statics are not dropped); maps are EMPTY and never hashed (A2).  Measured: a run-time built
+// (Box or static-mut slot) composite node makes the node kind non-constant for CBMC, every arm of
+// serialize_integer incl. the recursive union arm stays reachable, and no harness finishes.
+pub(crate) const fn const_vec<T>(s: &'static [T]) -> Vec<T> {
+	unsafe { Vec::from_raw_parts(s.as_ptr() as *mut T, s.len(), s.len()) }
+}
+pub(crate) const fn const_string(b: &'static [u8]) -> String {
+	// harness only: String is a newtype over Vec<u8>
+	unsafe { std::mem::transmute::<Vec<u8>, String>(const_vec(b)) }
+}
+pub(crate) const fn empty_map<K, V>() -> HashMap<K, V> {
+	HashMap::with_hasher(unsafe { std::mem::transmute::<(u64, u64), std::hash::RandomState>((0, 0)) })
+}
+pub(crate) const fn enum_node(symbols: &'static [String]) -> SchemaNode<'static> {
+	SchemaNode::Enum(Enum { symbols: const_vec(symbols), name: anon_name(), per_name_lookup: empty_map() })
+}
+pub(crate) static TWO_SYMBOLS: [String; 2] = [const_string(b"a"), const_string(b"b")];
+pub(crate) static ENUM2: SchemaNode<'static> = enum_node(&TWO_SYMBOLS);
